@@ -33,15 +33,14 @@ class HyperLogLogWCache:
         self.M[j] = max(self.M[j], rho)
 
     def add(self, value):
-        if len(self.warmup_set) < self.warmup_size and not self.hll_flag:
+        if not self.hll_flag:
             self.warmup_set.add(value)
-        elif not self.hll_flag:
-            if not self.hll_flag:
+            if len(self.warmup_set) > self.warmup_size:
                 self.M = np.zeros(self.m)
                 for element in self.warmup_set:
                     self._hasher_update(element)
                 self.warmup_set = {}
-            self.hll_flag = True
+                self.hll_flag = True
         else:
             self._hasher_update(value)
 
